@@ -660,7 +660,7 @@ def thread_solo(i, formula):
     return _tsolo[key]
 
 
-def run_sched(formulas, schedule, timeout=30.0):
+def run_sched(formulas, schedule, timeout=180.0):
     n = len(formulas)
     parsers = [thread_parser(i) for i in range(n)]
     gate = Gate(schedule, n, time.time() + timeout)
